@@ -4,13 +4,15 @@ import (
 	"fmt"
 	"strings"
 
+	"golang.org/x/tools/go/ssa"
+
 	"verif/wscheck/internal/fold"
 )
 
 func init() {
 	register(&Property{
 		ID:      "C12",
-		Explain: "Structural clauses of the permessage-deflate plumbing, decided by FOLD and table checks. (1) Tail constants: compressionTail = 00 00 ff ff, compressionReadTail = 00 00 ff ff 01 00 00 ff ff (the first is a prefix of the second), the tail buffer holds 4 bytes and the reader suffix 9. (2) cbuf.Write, the tail-withholding proxy, is evaluated with symbolic byte lanes for every fill level 0..4 x write length 0..12: bytes forwarded to the destination followed by the withheld bytes are exactly the bytes written so far, and min(4, total) bytes are withheld. (3) wsflate.Writer: Write/Flush/Close test the sticky error first; Flush and Close run the compressor and then compare the withheld bytes with the tail constant, a mismatch becoming a sticky error. (4) suffixedReader.Read and ReadByte are siblings: source until EOF (swallowed once), then the suffix from the current position, then io.EOF - evaluated for every suffix position x buffer size. (5) Frame helpers: a non-final frame is refused before anything is written, payload and Header.Length come from the same buf.Bytes(), the compression bit is set/cleared through SetBit/UnsetBit whose result is used, an uncompressed frame is returned unchanged; CompressTo = Write, Flush, Close with every error returned. NOT decided: anything about DEFLATE streams themselves (that compress/flate output plus the tail inflates to the input, interoperability, window sizes, chunked inflation) - the core of the property is out of reach for this technique. pooled-memory-escape: no frame helper returns a payload that lives in a pooled buffer the helper itself puts back. SetBit / UnsetBit tables (C13.bits-table) are part of this check. reader-read: wsflate.Reader.Read hands on the decompressor's (n, err) unchanged - flate delivers the last bytes of a stream together with io.EOF - and returns a sticky error without reading. The tail buffer is folded with failing destination writes: the first failure sticks, nothing follows it to the destination, a later success does not wipe it out.",
+		Explain: "Structural clauses of the permessage-deflate plumbing, decided by FOLD and table checks. (1) Tail constants: compressionTail = 00 00 ff ff, compressionReadTail = 00 00 ff ff 01 00 00 ff ff (the first is a prefix of the second), the tail buffer holds 4 bytes and the reader suffix 9. (2) cbuf.Write, the tail-withholding proxy, is evaluated with symbolic byte lanes for every fill level 0..4 x write length 0..12: bytes forwarded to the destination followed by the withheld bytes are exactly the bytes written so far, and min(4, total) bytes are withheld. (3) wsflate.Writer: Write/Flush/Close test the sticky error first; Flush and Close run the compressor and then compare the withheld bytes with the tail constant, a mismatch becoming a sticky error. (4) suffixedReader.Read and ReadByte are siblings: source until EOF (swallowed once), then the suffix from the current position, then io.EOF - evaluated for every suffix position x buffer size. (5) Frame helpers: a non-final frame is refused before anything is written, payload and Header.Length come from the same buf.Bytes(), the compression bit is set/cleared through SetBit/UnsetBit whose result is used, an uncompressed frame is returned unchanged; CompressTo = Write, Flush, Close with every error returned. NOT decided: anything about DEFLATE streams themselves (that compress/flate output plus the tail inflates to the input, interoperability, window sizes, chunked inflation) - the core of the property is out of reach for this technique. pooled-memory-escape: no frame helper returns a payload that lives in a pooled buffer the helper itself puts back. SetBit / UnsetBit tables (C13.bits-table) are part of this check. reader-read: wsflate.Reader.Read hands on the decompressor's (n, err) unchanged - flate delivers the last bytes of a stream together with io.EOF - and returns a sticky error without reading. helper-siblings: the allocating helpers (Helper.CompressFrame / DecompressFrame) and the package-level shortcuts call their buffer-taking sibling exactly once on every path, with the caller's frame, and return its results (a shortcut in one sibling skips what the other checks); DecompressTo is NewReader(bytes.NewReader(p)), one io.Copy into w (which hands on bytes that arrive together with io.EOF), Close, first error returned - a hand-written copy loop is reported as undecided. The tail buffer is folded with failing destination writes: the first failure sticks, nothing follows it to the destination, a later success does not wipe it out.",
 		Trusted: []string{"go/ssa + go/types", "the checker's abstract evaluator", "compress/flate (not analysed)"},
 		Assume:  []string{"round trip / interoperability with an independent DEFLATE implementation is not decided"},
 		Run:     runC12,
@@ -24,6 +26,7 @@ func runC12(c *Ctx) {
 	c12Suffixed(c)
 	c12ReaderRead(c)
 	c12Helpers(c)
+	c12HelperSiblings(c)
 	c18Flate(c)
 	// a compressed frame must stay what it was: its payload may not live in recycled memory
 	pooledEscapeRules(c, "C12")
@@ -590,6 +593,161 @@ func c12Helpers(c *Ctx) {
 		}
 		c.verdict(rule, rule+"/CompressTo", c.P.FuncPos(f), uniq(problems), "NewWriter(w); Write(p); Flush; Close; first error returned")
 	}
+}
+
+// c12HelperSiblings: the allocating helpers and the package-level shortcuts are their buffer
+// taking siblings and nothing else - on every path exactly one call of the sibling, with the
+// caller's frame, whose results are handed back (a fast path in one sibling that skips what the
+// other one checks makes the two disagree); DecompressTo is NewReader(bytes.NewReader(p)),
+// one library copy into w (which hands on the bytes that arrive together with io.EOF), Close.
+func c12HelperSiblings(c *Ctx) {
+	const rule = "C12.helper-siblings"
+	c.R.Rule(rule, 7, "the allocating helpers / package shortcuts delegate to their *Buffer / *To sibling exactly once and return its results; DecompressTo is NewReader, one io.Copy, Close with every error returned")
+	if !c.headerLayoutOK(rule) {
+		return
+	}
+	frame := func(fin bool, rsv int64) fold.Struct {
+		h := headerVal(fin, rsv, 1, false, nil, fold.Int{Lo: 0, Hi: bigLen(), Name: "Length"})
+		return fold.Struct{F: []fold.Val{h, fold.SymSeq{Name: "payload", Len: fold.Int{Lo: 0, Hi: 1 << 30, Name: "len(payload)"}}}}
+	}
+	type deleg struct {
+		method bool
+		name   string
+		callee string
+	}
+	H := "(*" + wsflate + ".Helper)."
+	for _, d := range []deleg{
+		{true, "CompressFrame", H + "CompressFrameBuffer"}, {true, "DecompressFrame", H + "DecompressFrameBuffer"},
+		{false, "CompressFrame", H + "CompressFrame"}, {false, "DecompressFrame", H + "DecompressFrame"},
+		{false, "CompressFrameBuffer", H + "CompressFrameBuffer"}, {false, "DecompressFrameBuffer", H + "DecompressFrameBuffer"},
+	} {
+		var f *ssa.Function
+		key := rule + "/" + d.name
+		if d.method {
+			f = c.method(rule, wsflate, "Helper", d.name)
+			key = rule + "/Helper." + d.name
+		} else {
+			f = c.fn(rule, wsflate, d.name)
+		}
+		if f == nil {
+			continue
+		}
+		m := c.machine()
+		m.Models[d.callee] = func(cl *fold.Call) fold.Val {
+			cl.M.Emit(fold.Effect{Kind: "call", Name: "sibling", Args: cl.Args[1:]})
+			return fold.Tuple{fold.Sym{Name: "sibling-frame"}, errChoice(cl.M, "sib.err", "sibling-error")}
+		}
+		var problems []string
+		ps := m.Explore(f, func(mm *fold.Machine) []fold.Val {
+			fin := mm.Choose("fin", 2) == 1
+			rsv := int64(mm.Choose("rsv1", 2) * 4)
+			var args []fold.Val
+			if d.method {
+				args = append(args, fold.Ref{O: mm.NewObj("helper", fold.Sym{Name: "helper"})})
+			}
+			if len(f.Params)-len(args) == 2 {
+				args = append(args, fold.Iface{V: fold.Sym{Name: "buf", NonNil: true}})
+			}
+			return append(args, frame(fin, rsv))
+		}, func(mm *fold.Machine, p *fold.Path) {
+			desc := "[" + p.ChoiceString() + "]"
+			sib := p.Calls("sibling")
+			if len(sib) != 1 {
+				problems = append(problems, fmt.Sprintf("%d calls of %s on a path, want exactly one (a shortcut that answers for the sibling skips what the sibling checks) %s", len(sib), d.callee, desc))
+				return
+			}
+			fa, _ := sib[0].Args[len(sib[0].Args)-1].(fold.Struct)
+			if len(fa.F) != 2 || fold.Show(fa.F[1]) != "payload" || fold.Show(fa.F[0]) != fold.Show(frame(p.Chose("fin") == 1, int64(p.Chose("rsv1")*4)).F[0]) {
+				problems = append(problems, "the sibling is not given the caller's frame "+desc)
+			}
+			if len(sib[0].Args) == 2 && len(f.Params) == 2 && fold.Show(sib[0].Args[0]) != "iface(<nil>:buf)" && !strings.Contains(fold.Show(sib[0].Args[0]), "buf") {
+				problems = append(problems, "the sibling is not given the caller's buffer "+desc)
+			}
+			ret, _ := p.Ret.(fold.Tuple)
+			wantE := "nil"
+			if p.Chose("sib.err") > 0 {
+				wantE = "sibling-error"
+			}
+			if len(ret) != 2 || fold.Show(ret[0]) != "sibling-frame" || c.errName(ret[1]) != wantE {
+				problems = append(problems, "the sibling's results are not what is returned "+desc)
+			}
+		})
+		for _, p := range ps {
+			if p.Abort != "" || p.Panic {
+				problems = append(problems, "undecided: "+p.Abort+panicNote(p))
+			}
+		}
+		c.R.AddCells(len(ps))
+		c.verdict(rule, key, c.P.FuncPos(f), uniq(problems), fmt.Sprintf("%d paths: one call of %s with the caller's frame, results returned", len(ps), d.callee))
+	}
+	if f := c.method(rule, wsflate, "Helper", "DecompressTo"); f != nil {
+		m := c.machine()
+		op := func(n string) fold.Model {
+			return func(cl *fold.Call) fold.Val {
+				cl.M.Emit(fold.Effect{Kind: "call", Name: n, Args: cl.Args})
+				e := errChoice(cl.M, n+".err", n+"-error")
+				if n == "Copy" {
+					return fold.Tuple{fold.Int{Lo: 0, Hi: fold.MaxInt64, Name: "copied"}, e}
+				}
+				return e
+			}
+		}
+		m.Models[wsflate+".NewReader"] = func(cl *fold.Call) fold.Val {
+			cl.M.Emit(fold.Effect{Kind: "call", Name: "NewReader", Args: cl.Args})
+			return fold.Ref{O: cl.M.NewObj("fr", fold.Sym{Name: "fr"})}
+		}
+		m.Models["bytes.NewReader"] = func(cl *fold.Call) fold.Val {
+			return fold.Ref{O: cl.M.NewObj("bytesreader", fold.Sym{Name: "bytes.NewReader(" + fold.Show(cl.Args[0]) + ")"})}
+		}
+		m.Models["io.Copy"] = op("Copy")
+		m.Models["(*"+wsflate+".Reader).Close"] = op("Close")
+		var problems []string
+		ps := m.Explore(f, func(mm *fold.Machine) []fold.Val {
+			hn := c.P.NamedType(wsflate, "Helper")
+			return []fold.Val{fold.Ref{O: mm.NewObj("helper", fold.SymOfType("h", hn))}, fold.Iface{V: fold.Sym{Name: "w", NonNil: true}}, fold.SymSeq{Name: "p", Len: fold.Int{Lo: 0, Hi: 1 << 30, Name: "len(p)"}}}
+		}, func(mm *fold.Machine, p *fold.Path) {
+			var seq []string
+			for _, e := range p.Effects {
+				if e.Kind == "call" {
+					seq = append(seq, e.Name)
+				}
+			}
+			want := []string{"NewReader", "Copy", "Close"}
+			wantErr := "nil"
+			for i, n := range want[1:] {
+				if p.Chose(n+".err") > 0 {
+					want = want[:i+2]
+					wantErr = n + "-error"
+					break
+				}
+			}
+			if strings.Join(seq, ",") != strings.Join(want, ",") || c.errName(p.Ret) != wantErr {
+				problems = append(problems, fmt.Sprintf("DecompressTo does [%s] -> %s, want [%s] -> %s", strings.Join(seq, ","), c.errName(p.Ret), strings.Join(want, ","), wantErr))
+			}
+			if cp := p.Calls("Copy"); len(cp) == 1 && (!strings.Contains(fold.Show(cp[0].Args[0]), ":w)") || !strings.Contains(fold.Show(cp[0].Args[1]), "fr")) {
+				problems = append(problems, "DecompressTo does not copy the decompressing reader into w")
+			}
+			if nr := p.Calls("NewReader"); len(nr) == 1 && !strings.Contains(fold.Show(mm.Load(derefArg(nr[0].Args[0]))), "bytes.NewReader(p)") {
+				problems = append(problems, "DecompressTo does not decompress p")
+			}
+		})
+		for _, p := range ps {
+			if p.Abort != "" || p.Panic {
+				problems = append(problems, "undecided: "+p.Abort+panicNote(p))
+			}
+		}
+		c.R.AddCells(len(ps))
+		c.verdict(rule, rule+"/DecompressTo", c.P.FuncPos(f), uniq(problems), "NewReader(bytes.NewReader(p)); io.Copy(w, reader); Close; first error returned")
+	}
+}
+
+// derefArg returns the reference inside an interface or pointer argument.
+func derefArg(v fold.Val) fold.Ref {
+	if i, ok := v.(fold.Iface); ok {
+		v = i.V
+	}
+	r, _ := v.(fold.Ref)
+	return r
 }
 
 // c12ReaderRead folds wsflate.(*Reader).Read: without a sticky error it hands
